@@ -70,7 +70,7 @@ Print Assumptions C11_char_backslash.
    constants, or the same error), with compression off and on.  [cs] = the constants the run computes (resolve_constants
    runs first over the whole program, so a use may even precede the definition); [lssub cs its its'] = its' is its with some
    names c replaced by numerals v where cs c = v.  (Register-like sites -- aliases, shift amounts -- go through
-   resolve_register_aliases / lookup_register instead: C13_register_spelling; they are exercised by the falsifier.) *)
+   resolve_register_aliases / lookup_register instead: C11_subst_register below.) *)
 Theorem C11_subst : forall its its' c0 l0 compress i1 cs,
   Passes.resolve_constants_lr its c0 [] = Passes.Done (i1, cs) -> Subst.lssub cs its its' ->
   Passes.assemble_items its' c0 l0 compress = Passes.assemble_items its c0 l0 compress.
@@ -100,3 +100,142 @@ From BB Require Gen.Guards Proofs.Guards.
 Theorem C11_resolve_constants_from_source : Proofs.Guards.resolve_constants_from_source_stmt.
 Proof. exact Proofs.Guards.resolve_constants_from_source. Qed.
 Print Assumptions C11_resolve_constants_from_source.
+
+(* ---- substitution at REGISTER-LIKE sites: a register operand (fields rd / rs1 / rs2 / rd_rs1 of an instruction -- the shift amount
+   of slli / srli / srai lives in rs2 -- and the register operands of a pseudo-instruction: `mv a0, W`, `li W, 5`, `beqz W, l`) written
+   as a constant (`W = s0`, `SH = 3`) gives the SAME result of the whole pipeline (chunks, labels, constants, or the same error), with
+   compression off and on, as the operand written literally.  [SubstReg.rsub cs its its']: same lines and, item by item, either the same
+   item or the same (pseudo-)instruction in which, at register keys, its has a constant name c (cs c = z) where its' has a literal for z:
+   [SubstReg.lit cs z b] = b is the int z, or a token s that is NOT a constant name and that the generated lookup_register reads like
+   the int z (so `s0`, `x8`, `fp`, `8`, `0x8` for z = 8; for a z that is no register number both sides fail alike).  Ghost fields (the
+   parse of the rs2 token the harness attaches, never read) may differ.  Instructions in which a substitution happens must be well-formed
+   as the parser produces them (NoRaw.okb 0, Proofs/ParseOk.v); untouched items are arbitrary.  Proofs/SubstReg.v: simulation through all
+   passes; Proofs/EncReg.v: all 93 generated encoders read register operands through lookup_register only. *)
+From BB Require Gen.Encoders Gen.Pseudo Proofs.EncSig Proofs.NoRaw Proofs.EncReg Proofs.SubstReg Proofs.Program.
+Theorem C11_subst_register : forall its its' c0 l0 compress i1 cs,
+  Passes.resolve_constants_lr its c0 [] = Passes.Done (i1, cs) -> SubstReg.rsub cs its its' ->
+  Passes.assemble_items its' c0 l0 compress = Passes.assemble_items its c0 l0 compress.
+Proof. exact SubstReg.assemble_subst_reg. Qed.
+Print Assumptions C11_subst_register.
+(* the same with the hypotheses as ONE computed boolean (SubstReg.rsubb decides rsub; sound: SubstReg.rsubb_ok) *)
+Theorem C11_subst_register_checked : forall its its' c0 l0 compress,
+  match Passes.resolve_constants_lr its c0 [] with
+  | Passes.Done (_, cs) => SubstReg.rsubb cs its its'
+  | _ => false
+  end = true ->
+  Passes.assemble_items its' c0 l0 compress = Passes.assemble_items its c0 l0 compress.
+Proof. exact SubstReg.assemble_subst_reg_b. Qed.
+Print Assumptions C11_subst_register_checked.
+(* which tokens are literals: every spelling the generated lookup_register resolves to v, provided it is not itself a constant name *)
+Theorem C11_register_literal : forall cs s v,
+  assoc_str s cs = None -> Gen.Encoders.lookup_register (AStr s) false = Ok v -> SubstReg.lit cs v (AStr s).
+Proof. exact SubstReg.lit_of_lookup. Qed.
+Print Assumptions C11_register_literal.
+(* what the proof takes from the generated encoders: for every mnemonic of every instruction class, operand lists that agree except
+   for lookup_register-equivalent operands at the register keys of the class are encoded alike (same word or same exception) *)
+Theorem C11_encoders_read_registers_through_lookup : forall cls name names kinds keys args args',
+  assoc_str cls Proofs.EncSig.class_sig = Some (names, kinds) -> Proofs.NoRaw.class_keys cls = Some keys -> mem_str name names = true ->
+  Proofs.EncReg.args_rel keys args args' -> Proofs.EncSig.encode_call cls name args = Proofs.EncSig.encode_call cls name args'.
+Proof. exact Proofs.EncReg.encode_reg. Qed.
+Print Assumptions C11_encoders_read_registers_through_lookup.
+(* which operands of a pseudo-instruction are registers (SubstReg.pseudo_nregs) is read off the templates regenerated from the source *)
+Theorem C11_pseudo_register_operands_from_source :
+  forallb (fun row => SubstReg.tmpl_ok (SubstReg.pseudo_nregs (fst row)) (snd (snd row))) Gen.Pseudo.pseudo_table = true.
+Proof. exact SubstReg.pseudo_nregs_from_source. Qed.
+Print Assumptions C11_pseudo_register_operands_from_source.
+(* non-vacuity: W = s0 ; SH = 3 ; add W, W, a1 ; slli a0, a0, SH ; srli W, W, SH ; mv a0, W ; li W, 5 ; beqz W, end ; end:
+   against  add s0, x8, a1 ; slli a0, a0, 3 ; srli s0, s0, 3 ; mv a0, 8 ; li s0, 5 ; beqz x8, end ; end:
+   -- related, and both assemble (12 bytes compressed, 24 uncompressed; the real assembler gives the same bytes) *)
+Example C11_subst_register_example :
+  (exists i1, Passes.resolve_constants_lr SubstReg.exr_const [] [] = Passes.Done (i1, [("W"%string, 8%Z); ("SH"%string, 3%Z)])) /\
+  SubstReg.rsub [("W"%string, 8%Z); ("SH"%string, 3%Z)] SubstReg.exr_const SubstReg.exr_lit /\
+  (forall cmp, exists r, Passes.assemble_items SubstReg.exr_const [] [] cmp = Passes.Done r /\
+                         Passes.assemble_items SubstReg.exr_lit [] [] cmp = Passes.Done r).
+Proof. exact (conj SubstReg.exr_consts (conj SubstReg.exr_related SubstReg.exr_result)). Qed.
+(* the side conditions are needed.  (1) A literal that is itself a constant name: constants handed in by the CALLER are not checked
+   against the register names (asm.assemble(src, constants={'s0': 5})), and `add s0, s0, a1` is then encoded with x5 -- with W = 8,
+   `add W, W, a1` and `add s0, s0, a1` differ (real assembler: 3304b400 vs b382b200).  (2) An ill-formed instruction (a register key at
+   an immediate position -- nothing the parser produces): as_imm accepts the int and refuses the token. *)
+Example C11_subst_register_needs_fresh_literal :
+  Passes.assemble_items (SubstReg.exs_its "s0") [("s0"%string, 5%Z)] [] false <>
+  Passes.assemble_items (SubstReg.exs_its "W") [("s0"%string, 5%Z)] [] false.
+Proof. exact SubstReg.shadowed_literal_differs. Qed.
+Example C11_subst_register_needs_wellformed :
+  Passes.assemble_items (SubstReg.exbad_its "s0") [] [] false <> Passes.assemble_items (SubstReg.exbad_its "W") [] [] false.
+Proof. exact SubstReg.illformed_differs. Qed.
+
+(* both kinds of sites at once: its -> its' by register-site substitution, its' -> its'' by integer-site substitution *)
+Theorem C11_subst_all : forall its its' its'' c0 l0 compress i1 cs,
+  Passes.resolve_constants_lr its c0 [] = Passes.Done (i1, cs) -> SubstReg.rsub cs its its' -> Subst.lssub cs its' its'' ->
+  Passes.assemble_items its'' c0 l0 compress = Passes.assemble_items its c0 l0 compress.
+Proof. exact SubstReg.assemble_subst_all. Qed.
+Print Assumptions C11_subst_all.
+(* from the TEXT of the lines of a file (lexer and parser models; Proofs/Program.v assemble_text): if both texts parse and the computed
+   check relates the parsed items, the results are the same *)
+Theorem C11_subst_register_text : forall ls ls' c0 l0 compress,
+  match Program.front_items ls, Program.front_items ls' with
+  | Parser.FOk its, Parser.FOk its' =>
+      match Passes.resolve_constants_lr its c0 [] with Passes.Done (_, cs) => SubstReg.rsubb cs its its' | _ => false end
+  | _, _ => false
+  end = true ->
+  Program.assemble_text ls' c0 l0 compress = Program.assemble_text ls c0 l0 compress.
+Proof. exact SubstReg.assemble_text_subst_reg. Qed.
+Print Assumptions C11_subst_register_text.
+(* non-vacuity from source text: 15 lines (R-type, shifts by a constant, mv / li / bnez / jalr / neg, lw / sw with a constant base and
+   target, an explicit c.add, amoadd.w) with W and SH against the literals s0 / x8 / 8 / fp and 0x3: the check computes to true and both
+   texts assemble (32 bytes compressed, 50 uncompressed; the real assembler gives the same bytes) *)
+Example C11_subst_register_text_example :
+  match Program.front_items SubstReg.ext_const, Program.front_items SubstReg.ext_lit with
+  | Parser.FOk its, Parser.FOk its' =>
+      match Passes.resolve_constants_lr its [] [] with Passes.Done (_, cs) => SubstReg.rsubb cs its its' | _ => false end
+  | _, _ => false
+  end = true /\
+  (forall cmp, exists r, Program.assemble_text SubstReg.ext_const [] [] cmp = Program.TDone r /\
+                         Program.assemble_text SubstReg.ext_lit [] [] cmp = Program.TDone r).
+Proof. exact (conj SubstReg.ext_checked SubstReg.ext_result). Qed.
+(* the boundary of "anywhere an integer is accepted": at the operands of fence, the aq / rl flags of the atomics, the argument of align
+   and the values of the numeric sequences (bytes ...) an integer LITERAL is accepted and a constant is refused (AssemblerError at that
+   line; the real assembler behaves the same: "invalid literal for int() with base 0: 'K'" / "alignment must be an integer" / "invalid
+   integer in bytes sequence").  These sites are outside C11_subst / C11_subst_register. *)
+Example C11_literal_only_sites :
+  forallb (fun p => andb (SubstReg.refused_at_2 (Program.assemble_text (SubstReg.two_lines (fst (fst p)) (snd (fst p))) [] [] false))
+                         (SubstReg.assembles (Program.assemble_text (SubstReg.two_lines (fst (fst p)) (snd p)) [] [] false)))
+    [("K = 15", "fence K, K", "fence 15, 15");
+     ("K = 1", "amoadd.w a0, a1, a2, K, K", "amoadd.w a0, a1, a2, 1, 1");
+     ("K = 1", "lr.w a0, a1, K, 0", "lr.w a0, a1, 1, 0");
+     ("K = 4", "align K", "align 4");
+     ("K = 4", "bytes K K", "bytes 4 4")]%string = true.
+Proof. exact SubstReg.constant_refused_sites. Qed.
+
+(* universally quantified, from the TOKEN LINE, for the three-register class (add ... remu and the shifts slli / srli / srai): the line
+   with constants and the line with literals both parse (parser model), and either one, placed anywhere in any program whose constants
+   are cs, gives the same result.  [SubstReg.arel cs t t']: t' = t, or t is a constant of cs and t' a literal for its value. *)
+From BB Require Proofs.EndToEnd Proofs.SubstRegLine.
+Theorem C11_rtype_line_subst_register : forall cs l name rd rs1 rs2 rd' rs1' rs2' a a',
+  In name Proofs.EndToEnd.r3_names -> String.eqb rd "=" = false -> String.eqb rd' "=" = false ->
+  PyExpr.arith_of_string rs2 = Some a -> PyExpr.arith_of_string rs2' = Some a' ->
+  SubstReg.arel cs rd rd' -> SubstReg.arel cs rs1 rs1' -> SubstReg.arel cs rs2 rs2' ->
+  exists it it',
+    Parser.parse_item l [name; rd; rs1; rs2] = Parser.FOk it /\ Parser.parse_item l [name; rd'; rs1'; rs2'] = Parser.FOk it' /\
+    forall pre post c0 l0 compress i1,
+      Passes.resolve_constants_lr (pre ++ (l, it) :: post) c0 [] = Passes.Done (i1, cs) ->
+      Passes.assemble_items (pre ++ (l, it') :: post) c0 l0 compress = Passes.assemble_items (pre ++ (l, it) :: post) c0 l0 compress.
+Proof. exact SubstRegLine.r_line_subst_reg. Qed.
+Print Assumptions C11_rtype_line_subst_register.
+Example C11_rtype_line_example :
+  let cs := [("W"%string, 8%Z); ("SH"%string, 3%Z)] in
+  (In "add"%string Proofs.EndToEnd.r3_names /\ PyExpr.arith_of_string "a1" = Some (Items.AName "a1") /\
+   SubstReg.arel cs "W" "s0" /\ SubstReg.arel cs "W" "x8" /\ SubstReg.arel cs "a1" "a1") /\
+  (In "slli"%string Proofs.EndToEnd.r3_names /\ PyExpr.arith_of_string "SH" = Some (Items.AName "SH") /\
+   PyExpr.arith_of_string "3" = Some (Items.ANum 3) /\ SubstReg.arel cs "SH" "3").
+Proof.
+  cbv zeta. repeat split; try (vm_compute; auto 30; fail); apply SubstReg.arelb_ok; vm_compute; reflexivity.
+Qed.
+
+(* ---- the model is a FUNCTION of the program and the options, and so is the code it models: the effect summary regenerated from asm.py
+   passes summary_ok (no module-level object written by anything reachable from assemble(), no mutable default, no set iteration order
+   consumed; Proofs/Effects.v noninterference) -- a memo table or cache that outlives a call makes a pure model unfaithful *)
+From BB Require Gen.Effects Proofs.Effects Proofs.EffectsOk.
+Theorem C11_assemble_is_a_function_of_its_inputs : Proofs.Effects.summary_ok Gen.Effects.summary = true.
+Proof. exact Proofs.EffectsOk.summary_ok_holds. Qed.
+Print Assumptions C11_assemble_is_a_function_of_its_inputs.
